@@ -7,8 +7,8 @@
 From Coq Require Import ZArith NArith List Bool.
 From PydoctorVerif Require Import Base.Sexp Base.PyExpr Gen.TablesC15 Model.StrEsc Model.Wrap Spec.PyGrammar Spec.PyLex
      Spec.PyTokenizer Model.ExprPrint Proofs.PyGrammarProofs Proofs.PyGrammarFuel Proofs.WrapProofs Proofs.StrEscProofs
-     Proofs.TokenizerProofs Proofs.ExprPrintProofs Proofs.DisplayProofs Proofs.ReCallProofs
-     Model.DelimIR Gen.DelimCode Proofs.DelimIRProofs.
+     Proofs.TokenizerProofs Proofs.ExprPrintProofs Proofs.DisplayProofs Proofs.ReCallProofs.
+From PydoctorVerif Require Model.DelimIR Gen.DelimCode Proofs.DelimIRProofs.
 Import ListNotations.
 
 (* Tables.prec_wf, on the precedence table as pydoctor sees it NOW (astor.op_util): for every parent context and every
@@ -302,17 +302,17 @@ Proof. do 3 eexists. vm_compute. repeat split. Qed.
    negation of the hand-written decision needs_paren the theorems above are about; __exit__ (pinned by the translator)
    adds the parentheses exactly when `not self.discard`. *)
 Theorem C15_code_init_is_model :
-  forall (o : opk) (sit : situation),
-    init_discard o sit delim_init_code = Some (negb (needs_paren (pctx_of sit) o)).
-Proof. exact init_is_model. Qed.
+  forall (o : opk) (sit : DelimIR.situation),
+    DelimIR.init_discard o sit DelimCode.delim_init_code = Some (negb (needs_paren (DelimIR.pctx_of sit) o)).
+Proof. exact DelimIRProofs.init_is_model. Qed.
 
 (* The dispatch of _colorize_ast (observed on the live code for one node of every class): the model wraps the output
    calls of a node in the delimiter exactly for the classes for which the code constructs _OperatorDelimiter(self, state,
    node) -- unary, binary and boolean operators -- and then with that decision. *)
 Theorem C15_code_dispatch_is_model :
   forall (pc : pctx) (e : expr),
-    is_delim (compile pc e) = code_delimited (nodecls_of e)
+    DelimIR.is_delim (compile pc e) = DelimCode.code_delimited (DelimIR.nodecls_of e)
     /\ (forall u x, e = EUn u x -> exists c, compile pc e = CDelim (needs_paren pc (OU u)) c)
     /\ (forall b l r, e = EBin b l r -> exists c, compile pc e = CDelim (needs_paren pc (OB b)) c)
     /\ (forall o es, e = EBool o es -> exists c, compile pc e = CDelim (needs_paren pc (OO o)) c).
-Proof. exact dispatch_is_model. Qed.
+Proof. exact DelimIRProofs.dispatch_is_model. Qed.
